@@ -45,6 +45,7 @@ pub fn plan(property: &str, tier: &str) -> Option<CheckPlan> {
     let thorough = tier == "thorough";
     match property {
         "C07" => Some(c07(seed, tier, thorough)),
+        "C08" => Some(c08(seed, tier, thorough)),
         "C09" => Some(c09(seed, tier, thorough)),
         _ => None,
     }
@@ -122,6 +123,51 @@ fn c07(seed: u64, tier: &str, thorough: bool) -> CheckPlan {
         opts: SupOpts::default(),
         required_probes: vec!["deep_tail_loop_under_small_depth_limit".into(), "nontail_depth_trip".into(), "tail_recursion_trip".into()],
         exhaustive: true,
+        extra: json!({}),
+    }
+}
+
+fn c08(seed: u64, tier: &str, thorough: bool) -> CheckPlan {
+    let mut jobs = vec![];
+    // every atom kind alone at small parameters, then seeded combinations
+    for kind in crate::atoms::KINDS {
+        for p in [0u64, 1, 2, 5] {
+            jobs.push(job("C08", "template", seed, tier, json!({"atoms": format!("{kind}:{p}"), "max_points": 200})));
+        }
+    }
+    let n_tpl = if thorough { 4000 } else { 250 };
+    for i in 0..n_tpl {
+        jobs.push(job("C08", "template", derive(seed, "c08tpl", i), tier, json!({"max_param": if thorough { 40 } else { 12 }, "max_atoms": 4, "max_points": if thorough { 200 } else { 48 }})));
+    }
+    for id in corpus_ids(derive(seed, "c08corpus", 0), if thorough { usize::MAX } else { 90 }) {
+        jobs.push(job("C08", "corpus", derive(seed, "c08corpus", 1), tier, json!({"script": id, "max_points": if thorough { 400 } else { 40 }})));
+    }
+    let n_hist = if thorough { 3000 } else { 200 };
+    for i in 0..n_hist {
+        jobs.push(job("C08", "history", derive(seed, "c08hist", i), tier, json!({"count": if thorough { 24 } else { 10 }})));
+    }
+    CheckPlan {
+        property: "C08".into(),
+        tier: tier.into(),
+        seed,
+        level: "fault_enumeration".into(),
+        jobs,
+        rule: "One evaluation = one simulated host history under one configuration of the call/depth/recursion/search limits. \
+               Templates are programs assembled from cost-algebra atoms with closed-form value, call count, frame depth, tail-run length and examined-element counts; \
+               every limit value from the minimum to need+1 is run for each kind (thinned only above the stated point cap), plus combined configurations around the thresholds. \
+               Corpus scripts are swept the same way against counts taken from independent observer events (frames built, calls counted, tail iterations). \
+               Histories are seeded sequences of run/reset/second-scope operations on one runtime against a counter model. \
+               Distinct = (program, limit kinds active, outcome class) for templates/corpus, (program, history shape) for histories.".into(),
+        assumptions: vec![
+            "closed forms cover user-written functions and native builtins only; std functions written in xray are exercised through the corpus, where counts come from observer events".into(),
+            "the search budget has no observer event (its refusal is created eagerly with the iterator); search exactness is decided on templates by closed form and on the corpus as single-threshold monotonicity".into(),
+        ],
+        opts: SupOpts::default(),
+        required_probes: vec![
+            "search_trip_at_closed_form_threshold".into(), "call_trip_at_closed_form_threshold".into(), "depth_trip_at_closed_form_threshold".into(),
+            "recursion_trip_at_closed_form_threshold".into(), "reset_in_history".into(), "call_budget_tripped_in_history".into(), "second_scope_shares_budget".into(),
+        ],
+        exhaustive: false,
         extra: json!({}),
     }
 }
